@@ -11,8 +11,6 @@ CONSTANTS
   MaxLen = 5
   MaxEdits = 2
   Kinds = {"edit", "keep", "touch"}
-  ProbeInput = "-"
-  ProbeKind = "-"
 INVARIANTS
   Emit
   StaleIsNotFresh
